@@ -11,15 +11,15 @@ import (
 )
 
 type walAnchors struct {
-	wal                                           *types.Named
-	nextSeq, writer, file, status, observers, mu  *types.Var
-	appendFns                                     []*ssa.Function // the five Append* entry points
-	appendF, appendBatch                          *ssa.Function
-	writeRecord, writeRaw, writeData, writeFrag   *ssa.Function
-	maybeSync, syncLocked, closeF, sync           *ssa.Function
-	updateNext, getNext                           *ssa.Function
-	errRotating                                   *ssa.Global
-	ok                                            bool
+	wal                                          *types.Named
+	nextSeq, writer, file, status, observers, mu *types.Var
+	appendFns                                    []*ssa.Function // the five Append* entry points
+	appendF, appendBatch                         *ssa.Function
+	writeRecord, writeRaw, writeData, writeFrag  *ssa.Function
+	maybeSync, syncLocked, closeF, sync          *ssa.Function
+	updateNext, getNext                          *ssa.Function
+	errRotating                                  *ssa.Global
+	ok                                           bool
 }
 
 func getWalAnchors(c *Ctx, r *Reporter) *walAnchors {
